@@ -138,6 +138,7 @@ pub struct World {
     pub app_leaf: HashMap<usize, u32>,
     pub written: HashMap<String, mls_rs::group::verif::VerifState>,
     pub joined_with: HashMap<String, Vec<u8>>,
+    pub bad_clients: HashMap<String, Client<Cfg>>,
 }
 
 pub fn make_client(
@@ -183,6 +184,7 @@ pub fn make_client(
         .mls_rules(rules)
         .identity_provider(ident.clone())
         .crypto_provider(crypto)
+        .extension_type(mls_rs::extension::ExtensionType::new(0xF0F0))
         .signing_identity(id, sk.clone(), suite)
         .build();
     (client, ctl, gs, kp, psk, ident, sk.as_bytes().to_vec(), pk.as_bytes().to_vec())
@@ -233,7 +235,15 @@ impl World {
             app_leaf: HashMap::new(),
             written: HashMap::new(),
             joined_with: HashMap::new(),
+            bad_clients: HashMap::new(),
         };
+        for n in ["bad-expired", "rejected"] {
+            let (client, ..) = make_client(n, w.opts.backends[0], &w.opts, &w.rec, None, None);
+            w.bad_clients.insert(n.to_string(), client);
+        }
+        for p in w.parties.values() {
+            p.ident.reject.lock().unwrap().insert(b"rejected".to_vec());
+        }
         let gid = w.gid.clone();
         let p = w.parties.get_mut(creator).ok_or("no creator")?;
         let g = p
@@ -285,6 +295,12 @@ pub fn classify(e: &MlsError) -> String {
         InvalidCommitSelfUpdate => "err:rule:update-by-committer",
         UpdatingNonExistingMember => "err:rule:update-nonmember",
         DuplicateLeafData(_) => "err:rule:add-duplicate",
+        MissingRequiredPsk | OldGroupStateNotFound => "err:rule:psk-unknown",
+        MoreThanOneGroupContextExtensionsProposal => "err:rule:gce-more-than-one",
+        OtherProposalWithReInit => "err:rule:reinit-not-alone",
+        InvalidProposalTypeForSender | InvalidTypeOrUsageInPreSharedKeyProposal | InvalidPskNonceLength | DuplicatePskIds => "err:rule:other",
+        InvalidLifetime { .. } => "err:rule:kp-lifetime",
+        CryptoProviderError(_) => "err:decrypt",
         GroupUsedAfterReInit => "err:frozen",
         InvalidConfirmationTag => "err:conf-tag",
         InvalidSignature => "err:auth",
@@ -293,7 +309,7 @@ pub fn classify(e: &MlsError) -> String {
         LcaNotFoundInDirectPath => "err:decap-lca-filtered",
         PubKeyMismatch => "err:decap-wrong-key",
         GroupStorageError(_) | KeyPackageRepoError(_) | PskStoreError(_) => "err:storage",
-        IdentityProviderError(_) => "err:identity",
+        IdentityProviderError(_) => "err:rule:identity",
         _ => "",
     };
     if s.is_empty() {
